@@ -23,7 +23,7 @@ TOLERANCES = {
 }
 ASSUMPTIONS = ["reference model trusted after self-test", "singular solves: scipy may return NaN or garbage for the free unknowns; only fixed vertices and flags are judged there"]
 
-MODES = ["wellposed", "extra-fixed", "extra-fixed", "refix-history", "refix-history", "shared-pose-object", "vertices-in-second-graph", "all-fixed", "isolated-fixed", "isolated-fixed", "isolated-free", "only-landmarks-fixed", "no-fixed", "diverging"]
+MODES = ["fixed-nonunit-quaternions", "wellposed", "extra-fixed", "extra-fixed", "refix-history", "refix-history", "shared-pose-object", "vertices-in-second-graph", "all-fixed", "isolated-fixed", "isolated-fixed", "isolated-free", "only-landmarks-fixed", "no-fixed", "diverging"]
 
 
 @S.composite
@@ -35,9 +35,26 @@ def strategy_(g):
         kw["bases"] = ("se2", "se3")
     if mode == "only-landmarks-fixed":
         kw["n_lm"] = (1, 3)
+    if mode == "fixed-nonunit-quaternions":
+        kw["bases"] = ("se3",)
     case = GG.gen(g, **kw)
     rnd = g.rnd
     verts = case["verts"]
+    if mode == "fixed-nonunit-quaternions":
+        # fixed SE(3) vertices whose quaternions are unit only to the precision of a hand-written file (2..6 decimals) or scaled a
+        # little: a fixed pose is kept exactly as given, whatever its norm (only (1) and (2) are judged in this mode)
+        for _ in range(rnd.randint(0, 2)):
+            rnd.choice(verts)["fixed"] = True
+        for i, v in enumerate(verts):
+            if v["p"]["k"] == "se3" and (v["fixed"] or (case["fix_first"] and i == 0)):
+                q = v["p"]["v"][3:]
+                if rnd.random() < 0.6:
+                    q2 = [round(x, rnd.choice([2, 3, 4, 5, 6])) for x in q]
+                    q = q2 if any(q2) else q
+                else:
+                    f = 1.0 + rnd.choice([1.0, -1.0]) * 10.0 ** rnd.uniform(-7, -2)
+                    q = [x * f for x in q]
+                v["p"]["v"][3:] = q
     if mode == "extra-fixed":
         for _ in range(rnd.randint(1, 3)):
             rnd.choice(verts)["fixed"] = True
@@ -167,7 +184,7 @@ def check(case, ctx):
         ctx.event("fault-case-with-numerically-differentiated-custom-edges")
     ff = case["fix_first"]
     fixed = GC.expected_fixed(case, ff)
-    fault = mode in ("no-fixed", "only-landmarks-fixed", "diverging", "isolated-free") or (mode == "shared-pose-object" and case["base"] in ("se2", "se3"))
+    fault = mode in ("no-fixed", "only-landmarks-fixed", "diverging", "isolated-free", "fixed-nonunit-quaternions") or (mode == "shared-pose-object" and case["base"] in ("se2", "se3"))
     if mode == "only-landmarks-fixed" and case["base"] in ("r2", "r3"):
         fault = False  # a fixed point anchors the translation gauge of a linear graph
     ctx.nontrivial(any(f for f in fixed[1:]) or fault)
